@@ -15,6 +15,10 @@ import Chrono.Proofs.Rfc2822RejectL
 import Chrono.Proofs.Rfc2822UniqueL
 import Chrono.Proofs.Rfc2822TrailL
 import Chrono.Extracted.Rfc2822
+import Chrono.Extracted.Rfc2822Rules
+import Chrono.Proofs.Rfc2822TableL
+import Chrono.Proofs.Rfc2822ListL
+import Chrono.Props.GenDate
 
 namespace Chrono.Props.C11
 open Chrono Chrono.M Chrono.Spec Chrono.Spec.Rfc2822 Chrono.Proofs.Rfc2822
@@ -417,8 +421,9 @@ theorem item_form (z : Zoned) (hz : ZInv z) :
   · rw [if_pos hr, if_pos hr]
   · rw [if_neg hr, if_neg hr]
 
-/-- the item anywhere in an item list (`%c`-like use, any zone name attached to the offset): one
-`write_to` step on a wall-clock reading `l` at offset `off` is `write_rfc2822 l off` -/
+/-- DEFINITIONAL (`rfl`: it restates the dispatch of the model `Format.format_item`, it is not a statement
+about a value or an item list — those are `item_in_list` / `item_in_list_read` below): one `write_to` step
+for the item on a wall-clock reading `l` at offset `off`, any zone name attached, is `write_rfc2822 l off` -/
 theorem item_step (l : NaiveDT) (name : List Nat) (off : Int) :
     Format.format_item (some l.date) (some l.time) (some (name, off)) (.fixed .rfc2822) =
       Format.write_rfc2822 l off := rfl
@@ -524,7 +529,8 @@ theorem obsolete_zone_table :
       Scan.timezone_offset_2822 (v ++ rest) = .ok (rest, e.2 * 3600)) ∧
     (∀ c, isAlpha c → lower c ≠ 106 → ∀ rest, NoAlphaHead rest →
       Scan.timezone_offset_2822 (c :: rest) = .ok (rest, 0)) ∧
-    (∀ c, lower c = 106 → ∀ rest off, Scan.timezone_offset_2822 [c] ≠ .ok (rest, off)) := by
+    (∀ c, lower c = 106 → ∀ rest, NoAlphaHead rest →
+      ∀ r off, Scan.timezone_offset_2822 (c :: rest) ≠ .ok (r, off)) := by
   refine ⟨?_, ?_, ?_⟩
   · intro e he v hv rest hr
     rcases tables_ok.2.1 e he with hm | hz
@@ -540,20 +546,31 @@ theorem obsolete_zone_table :
         simpa using this
   · intro c ha hj rest hr
     exact zone_names [c] 0 (Zone.military c ha hj) rest hr
-  · intro c hj rest off h
-    obtain ⟨zz, hz, hs⟩ := tz_inv [c] rest off h
+  · intro c hj rest hrest r off h
+    obtain ⟨zz, hz, hs⟩ := tz_inv (c :: rest) r off h
+    have hc : c = 106 ∨ c = 74 := by unfold lower at hj; split at hj <;> omega
     cases hz with
     | num neg h1 h2 m1 m2 _ _ _ _ =>
-      have := congrArg List.length hs
-      simp at this
+      have := congrArg List.head? hs
+      cases neg <;> simp at this <;> omega
     | name _ nm hours hmem hcase =>
       have hlen : ∀ e ∈ zoneTable, 2 ≤ e.1.length := by decide
       have h2 := hlen _ hmem
       have hl : zz.length = nm.length := by rw [← hcase, List.length_map]
-      have := congrArg List.length hs
-      simp only [List.length_cons, List.length_nil, List.length_append] at this
-      simp only [] at h2
-      omega
+      obtain ⟨_, _, hlow⟩ := zone_table_secs (nm, hours) hmem
+      have hal := caseOf_alpha hlow hcase
+      match zz, hl, hal with
+      | [], hl, _ => simp only [List.length_nil] at hl h2; omega
+      | [_], hl, _ => simp only [List.length_cons, List.length_nil] at hl h2; omega
+      | x :: y :: t, _, hal =>
+        simp only [List.cons_append, List.cons.injEq] at hs
+        have hy : isAlpha y := hal y (by simp)
+        rcases hrest with h0 | ⟨c', t', h1, h2'⟩
+        · rw [h0] at hs; exact absurd hs.2 (by simp)
+        · rw [h1] at hs
+          simp only [List.cons.injEq] at hs
+          rw [hs.2.1] at h2'
+          exact h2' hy
     | military c' _ hj' =>
       have : c = c' := by
         have := congrArg List.head? hs
@@ -606,6 +623,208 @@ theorem comment_any_depth (n : Nat) (rest : List Nat) :
 example : Scan.comment_2822 [40, 97, 92, 41, 98, 92, 40, 99, 41, 120] = .ok [120] ∧
     Scan.comment_2822 [40, 97, 41, 98, 41] = .ok [98, 41] ∧
     nestText 2 = [40, 40, 41, 41] := by decide
+
+/-! ## code re-extracted as data on every run (audit 2, G1 — data-extraction variant) -/
+
+section Tables
+open Chrono.Proofs.Rfc2822Table
+
+/-- **year_table_ok** (re-checked on re-extracted data).  The arms of `match (yearlen, year)` of the CURRENT
+`parse_rfc2822` source (tools/extractors/rfc2822_rules.py → `Extracted.YEAR_RULE_2822`: digit-count pattern,
+year-range pattern, `year += N`), applied Rust-`match`-wise (first matching arm) to the length and the value
+of ANY digit string, give the year of the specification's rule `yearOf`: a changed arm (`50..=99 → 2000`),
+bound or order breaks this theorem on the next run. -/
+theorem year_table_ok (yy : List Nat) (hd : Digits yy) :
+    applyYearRule Extracted.YEAR_RULE_2822 yy.length (decVal yy) = yearOf yy := by
+  rw [year_rule_model]
+  exact year_rule_eq yy hd
+
+/-- the extracted arms are the model's: for every `(yearlen, year)` they compute the `if` chain that stands
+in the model `Parse.parse_rfc2822` between `number s 2 none` and `Parsed.set_year`; and the match is total
+(the last extracted arm is the wildcard `(_, _)`) -/
+theorem year_table_model (yearlen : Nat) (year : Int) :
+    applyYearRule Extracted.YEAR_RULE_2822 yearlen year =
+      (if yearlen = 2 ∧ 0 ≤ year ∧ year ≤ 49 then year + 2000
+       else if yearlen = 2 ∧ 50 ≤ year ∧ year ≤ 99 then year + 1900
+       else if yearlen = 3 then year + 1900
+       else year) ∧
+    ∃ arm ∈ Extracted.YEAR_RULE_2822, armMatches arm yearlen year = true :=
+  ⟨year_rule_model yearlen year, (none, none, 0), by decide, rfl⟩
+
+/-- **writer_table_ok** (re-checked on re-extracted data).  The statements of the CURRENT `write_rfc2822`
+source — the `0..=9999` guard and, in source order, every `write_str` / `write_char` literal, the
+`day < 10` split, `year / 100`, `year % 100`, the `nanosecond() / 1_000_000_000` carried into the seconds,
+the four fields of the `OffsetFormat` — interpreted statement by statement over the model's leaf writers,
+are the hand-written model `Format.write_rfc2822` on every value: a changed literal, separator, divisor,
+bound or statement order in the source breaks this theorem on the next run.  `hundreds_table_ok`: the same
+for `write_hundreds` (`n >= 100`, `b'0' + n / 10`, `b'0' + n % 10`). -/
+theorem writer_table_ok (dt : NaiveDT) (off : Int) :
+    interpWrite Extracted.YEAR_GUARD_2822 Extracted.WRITE_2822 dt off = Format.write_rfc2822 dt off :=
+  write_eq dt off
+
+theorem hundreds_table_ok (n : Int) :
+    interpHundreds Extracted.WRITE_HUNDREDS n = Format.write_hundreds n := hundreds_eq n
+
+/-- **writer_extracted_shape** (extracted code = specification).  The re-extracted statements of
+`write_rfc2822`, run on the wall-clock reading of ANY well-formed value, write exactly the text of
+`writer_shape` / `item_shape` (`Www, D Mon YYYY HH:MM:SS ` of the wall-clock fields + the shown zone) inside
+years 0–9999 and fail with `fmt::Error` outside. -/
+theorem writer_extracted_shape (z : Zoned) (hz : ZInv z) (Y : Int) (o : Nat) (hw : WallDate z Y o) :
+    (match Zoned.overflowing_naive_local z with
+     | .panic => .panic
+     | .ok l => interpWrite Extracted.YEAR_GUARD_2822 Extracted.WRITE_2822 l z.off : Format.W) =
+      if 0 ≤ Y ∧ Y ≤ 9999 then .ok (some (stdHead (fieldsOf z Y o) ++ shownZone z.off)) else .ok none := by
+  rw [← format_item_shape z hz Y o hw, format_item_eq]
+  cases Zoned.overflowing_naive_local z with
+  | panic => rfl
+  | ok l => exact write_eq l z.off
+
+/-- non-vacuity: the extracted year rule on `03`, `50`, `103`, `0654`; the extracted statements on the leap
+second 2016-12-31T23:59:60.5 read at the wall clock of +05:30 -/
+example : applyYearRule Extracted.YEAR_RULE_2822 2 3 = 2003 ∧ applyYearRule Extracted.YEAR_RULE_2822 2 50 = 1950 ∧
+    applyYearRule Extracted.YEAR_RULE_2822 3 103 = 2003 ∧ applyYearRule Extracted.YEAR_RULE_2822 4 654 = 654 ∧
+    interpWrite Extracted.YEAR_GUARD_2822 Extracted.WRITE_2822 ⟨dateOfYo 2017 1, ⟨19799, 1500000000⟩⟩ 19800
+      = .ok (some (stdText ⟨some .sun, 1, 1, 2017, 5, 29, some 60, 19800⟩)) := by
+  decide +kernel
+
+/-- **gen_wall_date_fields** (generated code = specification, for the writer's date accessors).  The code
+that tools/extractors/rust2lean.py translates from the CURRENT source of `NaiveDate::{year, month, day,
+weekday}` (`Chrono.Gen.naive_date.*`, tied to the model by `Props/GenDate.gen_*_eq`), run on the wall-clock
+reading `overflowing_naive_local()` of ANY well-formed value, returns exactly the year, month, day and
+day-name that `writer_shape` shows (`fieldsOf z Y o`): composition of `gen_year_eq` / `gen_month_eq` /
+`gen_day_eq` / `gen_weekday_eq` with C01's calendar theorems and C04's wall-clock reading. -/
+theorem gen_wall_date_fields (z : Zoned) (hz : ZInv z) (Y : Int) (o : Nat) (hw : WallDate z Y o) :
+    ∃ l, Zoned.overflowing_naive_local z = .ok l ∧
+      Gen.naive_date.NaiveDate.year l.date.yof = (fieldsOf z Y o).year ∧
+      Gen.naive_date.NaiveDate.month l.date.yof = .ok ((fieldsOf z Y o).month : Int) ∧
+      Gen.naive_date.NaiveDate.day l.date.yof = .ok ((fieldsOf z Y o).day : Int) ∧
+      ∃ n : Nat, Gen.naive_date.NaiveDate.weekday l.date.yof = .ok n ∧
+        weekdays[n]? = (fieldsOf z Y o).weekday := by
+  obtain ⟨l, h1, h2, ⟨_, _, v3, v4⟩, _⟩ := wall_reading z hz Y o hw
+  have hyl := Chrono.Proofs.yearLen_ge Y
+  obtain ⟨fy, _⟩ := Chrono.Proofs.dateOfYo_fields Y o (by omega)
+  obtain ⟨hm, hd, _⟩ := Chrono.Proofs.month_day_spec Y o v3 v4
+  have hwd := Chrono.Proofs.weekday_spec Y o (by omega)
+  refine ⟨l, h1, ?_, ?_, ?_, (dateOfYo Y o).weekday.toNat, ?_, ?_⟩
+  · rw [Chrono.Props.GenDate.gen_year_eq, h2, fy]; rfl
+  · rw [Chrono.Props.GenDate.gen_month_eq, h2, hm]; rfl
+  · rw [Chrono.Props.GenDate.gen_day_eq, h2, hd]; rfl
+  · rw [Chrono.Props.GenDate.gen_weekday_eq, h2]
+  · show weekdays[(dateOfYo Y o).weekday.toNat]? = weekdayAt (dayNumYo Y o)
+    unfold weekdayAt
+    rw [← hwd, Int.toNat_natCast]
+
+end Tables
+
+/-! ## the `Fixed::RFC2822` item inside a longer item list (audit 2, G2) -/
+
+/-- **item_in_list** (writing).  `dt.format_with_items(pre ++ [Fixed::RFC2822] ++ post)` with `pre`, `post`
+made of `Literal` / `Space` items, written into a `String`, for EVERY well-formed value with wall-clock date
+`(Y, o)`: the literal text of `pre`, the text of `writer_shape`, the literal text of `post` — inside years
+0–9999; `Err(fmt::Error)` for the whole list outside (never a panic, never a partial text observed). -/
+theorem item_in_list (z : Zoned) (hz : ZInv z) (Y : Int) (o : Nat) (hw : WallDate z Y o)
+    (pre post : List Item) (hpre : LitsOnly pre) (hpost : LitsOnly post) :
+    Rfc2822.format_with_items z (pre ++ [.fixed .rfc2822] ++ post) =
+      if 0 ≤ Y ∧ Y ≤ 9999 then
+        .ok (some (litText pre ++ (stdHead (fieldsOf z Y o) ++ shownZone z.off) ++ litText post))
+      else .ok none := by
+  rw [format_in_list z pre post hpre hpost, item_shape z hz Y o hw]
+  by_cases hr : 0 ≤ Y ∧ Y ≤ 9999
+  · rw [if_pos hr, if_pos hr]
+  · rw [if_neg hr, if_neg hr]
+
+/-- the single item is the list form with nothing around it -/
+theorem item_single_is_list (z : Zoned) : Rfc2822.format_item_rfc2822 z = Rfc2822.format_with_items z [.fixed .rfc2822] := rfl
+
+/-- **item_in_list_read** (reading).  `parse(&mut parsed, a ++ s ++ b, [Literal(a), Fixed::RFC2822, Literal(b)])`
+followed by `to_datetime`, for ANY literal `a`, any string `s` of the grammar whose fields are inside the setter
+ranges, and any literal `b` that starts neither with an ASCII letter nor with a comment (`*S "("` — the item
+reads trailing comments greedily): the result is that of `parse_from_rfc2822 s` — the same value, or the same
+resolution error. -/
+theorem item_in_list_read (s : List Nat) (f : Fields) (h : Rfc2822 s f) (hr : SetterRanges f)
+    (a b : List Nat) (hb : NoAlphaHead b) (hcb : ∃ e, Scan.comment_2822 b = .error e) :
+    Rfc2822.parse_items_to_datetime (a ++ (s ++ b)) [.literal a, .fixed .rfc2822, .literal b] =
+      Rfc2822.parse_from_rfc2822 s := by
+  have h1 : Parse.parse Parsed.new (a ++ (s ++ b)) [.literal a, .fixed .rfc2822, .literal b] = .ok (parsedOf f) := by
+    unfold Parse.parse
+    rw [parse_internal_lit, Parse.parse_internal]
+    simp only [parse_rfc2822_complete_rest s f h hr b hb hcb]
+    have := parse_internal_lit (parsedOf f) b [] []
+    rw [List.append_nil] at this
+    rw [this, Parse.parse_internal]
+  unfold Rfc2822.parse_items_to_datetime Rfc2822.parse_from_rfc2822
+  rw [h1, scanner_complete s f h hr]
+
+/-- hence, for valid fields: the value they denote -/
+theorem item_in_list_read_valid (s : List Nat) (f : Fields) (h : Rfc2822 s f) (hv : Valid f)
+    (a b : List Nat) (hb : NoAlphaHead b) (hcb : ∃ e, Scan.comment_2822 b = .error e) :
+    ∃ z, Rfc2822.parse_items_to_datetime (a ++ (s ++ b)) [.literal a, .fixed .rfc2822, .literal b] = .ok (.ok z) ∧
+      Denotes f z := by
+  obtain ⟨z, hz, hd⟩ := reader_accepts_spec s f h hv
+  exact ⟨z, by rw [item_in_list_read s f h (setterRanges_of_valid f hv) a b hb hcb, hz], hd⟩
+
+/-- a `Literal` in front of the item, ANY text `s` (in or out of the grammar), any further items: accepted,
+rejected and read exactly as without it -/
+theorem item_behind_literal (a s : List Nat) (rest : List Item) :
+    Rfc2822.parse_items_to_datetime (a ++ s) (.literal a :: rest) = Rfc2822.parse_items_to_datetime s rest := by
+  unfold Rfc2822.parse_items_to_datetime Parse.parse
+  rw [parse_internal_lit]
+
+/-- non-vacuity: `<` … `>` around an item (`>` starts neither a letter nor a comment); `[Literal "<", RFC2822,
+Literal ">"]` are literal items around the item -/
+example : NoAlphaHead [62] ∧ (∃ e, Scan.comment_2822 [62] = .error e) ∧
+    LitsOnly [.literal [60]] ∧ litText [.literal [60], .space [32]] = [60, 32] :=
+  ⟨Or.inr ⟨62, [], rfl, by decide⟩, ⟨.invalid, by decide⟩,
+   fun it hi => by simp at hi; exact Or.inl ⟨[60], hi⟩, rfl⟩
+
+/-! ## what `Valid` excludes at the end of the range, and the in-band leap instant (audit 2, G3 / G4) -/
+
+/-- **wall_year_beyond_max_rejected.**  `Valid` asks for a wall-clock year ≤ `MAX_YEAR` (the wall-clock date
+is built as a `NaiveDate` before the offset is subtracted).  A string of the grammar with a larger year is
+rejected by value — ALSO when the instant it denotes and its offset are representable (`1 Jan 262143 00:00
++0001` = UTC 262142-12-31T23:59, a legal `DateTime<FixedOffset>`; example below; the real crate:
+`Err(OutOfRange)`).  The property's "denoted instant" clauses (`reader_accepts_spec`, `reader_sound`) are
+silent on such strings by this exclusion; this theorem says what happens instead. -/
+theorem wall_year_beyond_max_rejected (s : List Nat) (f : Fields) (h : Rfc2822 s f)
+    (hy : Extracted.MAX_YEAR < f.year) : ∃ e, Rfc2822.parse_from_rfc2822 s = .ok (.error e) :=
+  invalid_rejected s f h (fun hv => by have := hv.2.1; omega)
+
+/-- `1 Jan 262143 00:00 +0001` -/
+def exEdge : List Nat :=
+  [49, 32, 74, 97, 110, 32, 50, 54, 50, 49, 52, 51, 32, 48, 48, 58, 48, 48, 32, 43, 48, 48, 48, 49]
+def exEdgeFields : Fields := ⟨none, 1, 1, 262143, 0, 0, none, 60⟩
+
+/-- the hypotheses of `wall_year_beyond_max_rejected` on that string; its instant is in range, its offset
+valid, the value it would denote (UTC 262142-12-31T23:59:00 at +00:01) is well formed — and the reader
+rejects it -/
+example : Rfc2822 exEdge exEdgeFields ∧ Extracted.MAX_YEAR < exEdgeFields.year ∧
+    InRangeSecs (localSecs exEdgeFields - exEdgeFields.off) ∧ OffValid exEdgeFields.off ∧
+    ZInv ⟨⟨dateOfYo 262142 365, ⟨86340, 0⟩⟩, 60⟩ ∧
+    ∃ e, Rfc2822.parse_from_rfc2822 exEdge = .ok (.error e) := by
+  have hg : Rfc2822 exEdge exEdgeFields := ?_
+  · exact ⟨hg, by decide +kernel, by decide +kernel, by decide +kernel, by decide +kernel,
+      wall_year_beyond_max_rejected exEdge exEdgeFields hg (by decide +kernel)⟩
+  exact ⟨[], [], [], [49], [32], [74, 97, 110], [32], [50, 54, 50, 49, 52, 51], [32], [48, 48], [],
+    [], [48, 48], [], [32], [43, 48, 48, 48, 49], [],
+    Ws.nil, Or.inl ⟨rfl, rfl⟩, Ws.nil, by decide, Or.inl rfl, by decide,
+    ws1_sp, ⟨0, by decide, by decide, rfl⟩, ws1_sp, by decide, by decide, by decide, ws1_sp,
+    by decide, rfl, by decide, Ws.nil, Ws.nil, by decide, rfl, by decide,
+    Or.inl ⟨rfl, rfl⟩, ws1_sp,
+    Zone.num false 48 48 48 49 (by decide) (by decide) (by decide) (by decide), Comments.nil, rfl⟩
+
+/-- **inband_timestamp** (what "the same instant" means for the in-band leap representation).  In chrono's
+own whole-second scale (`DateTime::timestamp()` = `instSecs`), the value read back from the text of an in-band
+leap value is ONE SECOND LATER than the original; for every other value it is the same second.  The round-trip
+theorems count the nanosecond field's overflow as that second (`readBack_whole_seconds`). -/
+theorem inband_timestamp (z : Zoned) (hz : ZInv z) :
+    instSecs (readBack z).utc = instSecs z.utc + (if InbandLeap z then 1 else 0) := by
+  unfold readBack
+  by_cases hl : InbandLeap z
+  · rw [if_pos hl, if_pos hl]
+    exact (nextSec_facts z hz hl).2.1
+  · rw [if_neg hl, if_neg hl]
+    unfold truncSecs instSecs
+    simp
 
 /-! ## non-vacuity: concrete strings of the grammar with valid fields -/
 
